@@ -10,7 +10,11 @@ _m(
     "multi-cell assignment with a list of fresh arrays through v[...] = [...] (slices incl. open, negative and stepped bounds, "
     "lists and ndarrays of length >= 2, outer product over several dimensions) and set_data (one multi-cell dimension, >= 2 cells); "
     "retrieval through get_data and slicing to a new Vector (full or partial index tuples, bare or tuple index); "
-    "v[expr] = w[expr].copy() with a Vector right-hand side; field arithmetic v[f] op= scalar for + - * /; callable assignment; "
+    "slice / fancy assignment whose VALUE IS A VECTOR: a copy() of a slice of the same or another live vector taken now, a copy() of "
+    "a slice of the destination vector held from an earlier step (hold steps keep up to two such slices) or taken just before an "
+    "add_fields / remove_fields of that vector (stale column count), written to the held index sets shifted cyclically, or a fresh "
+    "Vector.from_data with k, k+1 or k-1 columns - matching column counts must store exactly the right-hand side's cells, "
+    "mismatching ones must raise ValueError and change nothing; field arithmetic v[f] op= scalar for + - * /; callable assignment; "
     "set_flattened / v[f] = values (ndarray or list) and the flatten -> set_flattened round trip; add_fields / remove_fields "
     "(str, list, tuple; existing, duplicate and missing names; all-but-one); copy (optionally preceded by a nested metadata write and "
     "followed by an in-place mutation on one side); creation of further independent Vectors; metadata writes and in-place "
@@ -41,7 +45,12 @@ _m(
         "copy() must be independent of its source; whether it carries the source's metadata or starts empty is not fixed by the "
         "statement (both accepted, counted); a newly created Vector must have empty metadata",
         "a zero-row cell is only passed to from_data as an ndarray of shape (0, k) (an empty nested list cannot carry k); "
-        "a Vector right-hand side is only used when all its cells are populated",
+        "a Vector right-hand side is only used when all its cells are populated (the harness fills the addressed cells first)",
+        "a Vector right-hand side is flattened in row-major order and only its number of cells has to match; slices are assigned "
+        "through copy() and from_data right-hand sides are dropped after the assignment, so stored arrays are never aliased "
+        "(the documented aliasing of `v[a] = v[b]` is outside the domain).  The expected content of a HELD slice is what the slice "
+        "itself returns through its public API immediately before the assignment (it is the input of the operation; a view's "
+        "content after later in-place field arithmetic on its parent is not specified), its column count decides match / mismatch",
         "every case clears the metadata of its vectors at the end (public API) so that a tree with process-wide shared metadata "
         "cannot leak state from one case into the next: reported cases are self-contained",
     ],
